@@ -37,6 +37,10 @@ impl DailyMutations {
     }
 
     pub fn write(&self, conn: &Connection) -> std::result::Result<(), rusqlite::Error> {
+        #[cfg(feature = "verif")]
+        if crate::verif_hooks::fault::hit("marks.write") {
+            return Err(crate::verif_hooks::fault::error("marks.write"));
+        }
         let mut node_daily_stmt = conn.prepare_cached(
             "INSERT INTO _daily_log (
                     room_id,
